@@ -199,6 +199,8 @@ package scanner
 //@ scan inv eof == lex.pe
 //@ scan inv tkn != nil
 //@ scan inv tok == 0
+//@ scan inv lex.data[lex.p] != 10
+//@ scan inv lex.data[lex.p] != 13
 //@ scan inv entrystate(lex.cs) || lex.cs == lexer_error
 //@ scan inv lex.phpVersion != nil
 //@ scan inv sorted(lex.newLines.data)
